@@ -81,12 +81,32 @@ class Ctx:
         self.scaled = 1
         self.dirs = []
         self.n = 0
+        self.saved = None
 
     def reset(self):
         self.tree = None
+        self.saved = None
         for d in self.dirs:
             shutil.rmtree(d, ignore_errors=True)
         self.dirs = []
+
+    def saveas(self, sp, seed, fmt):
+        """save the tree in use to ANOTHER location and keep using it"""
+        t = self.tree
+        tmp = tempfile.mkdtemp(prefix="c13_", dir=TMP)
+        self.dirs.append(tmp)
+        if fmt == 2:
+            tmp = os.path.join(tmp, "elsewhere", "deeper")
+            os.makedirs(tmp)
+        path = os.path.join(tmp, "s.sbt.zip" if fmt == 0 else "s.sbt.json")
+        it = iter([draw(seed, pos) / 1000.0 for pos in t._nodes])
+        orig = sbtmod.random
+        sbtmod.random = lambda: next(it)
+        try:
+            t.save(path, sparseness=sp / 1000.0)
+        finally:
+            sbtmod.random = orig
+        self.saved = path
 
     def legacy(self, tmp, path, ver):
         """rewrite the version-6 FS save into the version-1 / version-2 container: file names relative to
@@ -205,6 +225,17 @@ def main():
                         raise KeyError
                     ctx.saveload(sp, seed, ver, cache)
                     res = "ok"
+                elif op == "saveas":
+                    sp, seed, fmt = map(int, a)
+                    if fmt not in (0, 1, 2):
+                        raise KeyError
+                    ctx.saveas(sp, seed, fmt)
+                    res = "ok"
+                elif op == "checksaved":
+                    (cache,) = map(int, a)
+                    if ctx.saved is None:
+                        raise KeyError
+                    res = dump(load_sbt_index(ctx.saved, print_version_warning=False, cache_size=(cache or None)))
                 elif op == "search":
                     c, thr = int(a[0]), int(a[1])
                     if c not in (0, 1):
